@@ -493,8 +493,11 @@ def write_evidence(pid, tier, seed, t0, jobs, out, confirmed, known_hits, undeci
         cov.update({"states": 1, "transitions": 1, "traces_validated_against_impl": 0, "samples": [{"note": "engine failure"}],
                     "evaluations": 1, "distinct_nontrivial": 2, "undecided": undecided})
     ev["coverage"] = cov
-    os.makedirs(os.path.join(VERIF, "evidence"), exist_ok=True)
-    json.dump(ev, open(os.path.join(VERIF, "evidence", pid + ".json"), "w"), indent=1)
+    # runs against a scratch copy of the repository (seeded changes, experiments) must not
+    # replace the evidence of the registered command, which describes /repo itself
+    evdir = os.path.join(VERIF, "evidence") if REPO == "/repo" or os.environ.get("VP_RUN_REPO") else os.path.join(VERIF, "out", "evidence-scratch")
+    os.makedirs(evdir, exist_ok=True)
+    json.dump(ev, open(os.path.join(evdir, pid + ".json"), "w"), indent=1)
 
 
 def main():
